@@ -121,6 +121,21 @@ Proof.
 Qed.
 Print Assumptions C12_complete_once_partial.
 
+(* What recycling costs: in the configuration g_recycle = false (remove() does not put the
+   object on the free list - a HYPOTHETICAL repair, not the code as it is) the two statements
+   refuted below hold for every machine, any number of threads and every reachable state.
+   So the stale pointer to a recycled object is the only cause of the two refutations. *)
+Theorem C12_lockset_without_recycling : forall cstate cinit cclosed process flush g,
+  machine_ok cstate cinit cclosed process flush -> g_recycle g = false ->
+  C12_lockset_stmt cstate cinit cclosed process flush g.
+Proof. intros cs ci cc pr fl g Hm G progs s R. exact (lockset_norecycle cs ci cc pr fl Hm g progs s G R). Qed.
+Theorem C12_inorder_without_recycling : forall cstate cinit cclosed process flush g,
+  machine_ok cstate cinit cclosed process flush -> g_recycle g = false ->
+  C12_inorder_stmt cstate cinit cclosed process flush g.
+Proof. intros cs ci cc pr fl g Hm G progs s R. exact (right_stream_norecycle cs ci cc pr fl Hm g progs s G R). Qed.
+Print Assumptions C12_lockset_without_recycling.
+Print Assumptions C12_inorder_without_recycling.
+
 (* the hypothesis on the per-connection machine holds for the two concrete machines *)
 Theorem C12_machine_ok_tcpassembly : machine_ok tconn tc_init tc_closed tcp_process tcp_flush.
 Proof. exact tcp_machine_ok. Qed.
@@ -235,6 +250,15 @@ Proof.
   - exact tcp_machine_ok.
   - apply sched_tcp_reach.
 Qed.
+
+(* the schedule that sends data to the wrong stream, run without recycling: the stale pointer
+   finds the connection closed, the assembler looks up again and opens a new stream for a0 *)
+Example C12_without_recycling_nonvacuous :
+  let g := mkCfg Tcp false false in
+  let s := sched_tcp g w_rec_tcp (w_rec_wrong ++ [1; 1; 1]) in
+  chk_right_stream g s = true /\ has_race tconn tc_init g s = false /\
+  s_nsid s = 3 /\ all_done s = true /\ In TgRetry (s_tags s).
+Proof. vm_compute. repeat split; auto. Qed.
 
 (* non-vacuity of the invariants: the witness states are reachable and non-trivial *)
 Example C12_progress_nonvacuous :
